@@ -5,7 +5,7 @@
 #   - the unedited test-suite must pass with the patch (run in the scratch worktree)
 #   - the listed checks are run with the patch applied to /repo, which is restored afterwards
 ID=$1; LABEL=$2; shift 2
-SRC=/tmp/mut/$ID.out
+SRC=${SEED_SRC:-/tmp/mut/$ID.out}   # SEED_SRC=/tmp/mut2/<ID>.out/A for round 2
 DST=/verif/seeded/$LABEL
 mkdir -p $DST
 cp $SRC/patch.diff $SRC/demo.py $DST/ 2>/dev/null
@@ -25,7 +25,7 @@ fi
 cd /repo && git apply $DST/patch.diff || { echo "PATCH DOES NOT APPLY to /repo"; exit 2; }
 RES=""
 for c in "$@"; do
-  cd /verif && ./check $c --tier quick > $DST/check_$c.log 2>&1; e=$?
+  cd /verif && VERIF_EVIDENCE_DIR=$DST/evidence_patched ./check $c --tier quick > $DST/check_$c.log 2>&1; e=$?
   v=$(grep -c '^VIOLATION' $DST/check_$c.log)
   RES="$RES $c:exit=$e,violations=$v"
   echo "check $c exit=$e violations=$v :: $(grep -m1 -A1 '^VIOLATION' $DST/check_$c.log | tail -1 | cut -c1-220)"
